@@ -730,6 +730,7 @@ func TestC32(t *testing.T) {
 	r := lib.Start(t, "C32")
 	defer r.Finish()
 	r.Rule("part A: history = script of 2-16 goroutines x 1-6 ops (load 60% / get 20% / reset 20%) on 1-3 keys (backend x protocol x route generation) with TTL in {1,5,10}s, virtual sleeps in {0,1ms,100ms,0.9s,1s,3s,7s} before ops, loaders taking {0,1ms,0.5s,2s,8s} virtual time and failing with p=1/4, run in a testing/synctest bubble on a hook-built pingStatusCache; distinct = distinct (script, observed hit/join/fetch pattern). part B: case = route of 1-4 backends (answering / silent / refusing loopback status servers), fallback on/off, cache on/off, strategy, 1-3 sequential status requests through lite.ResolveStatusResponseWithGeneration after ResetPingCache, plus bursts of 2-13 concurrent requests on one slow backend")
+	r.Rule("part C: case = ApplyLiveConfig(base) -> 3-5 status pings through Proxy.HandleConn (cache warm) -> ApplyLiveConfig(reloaded) -> 3 sequential + 3 concurrent pings, where reloaded differs from base in exactly one attribute of the pinged Lite route (every attribute of config.Route enumerated by reflection: hosts/backends add/remove/reorder/replace, cachePingTTL, each fallback sub-field and nil<->set, proxyProtocol, realIP, tcpShieldRealIP, modifyVirtualHost, strategy), in a whole route (added before/after, another removed, the pinged one removed, moved), in two of these, or in nothing; base route random (1-2 of 6 echo backends in two host spellings, TTL default/30s/1m, flags, strategy, fallback); backends mint a unique id per status request and echo virtual host / PROXY header / port in the MOTD; distinct = (kind, changed attributes, protocol)")
 	r.Assume("call/return/fetch stamps come from one atomic counter at the client boundary; virtual times from the synctest bubble clock, which is also the cache's injected clock")
 	r.Assume("hook lite.VerifNewPingCache builds the cache exactly like the package-level pingCache (newPingStatusCache(now, new(singleflight.Group)))")
 
@@ -799,4 +800,5 @@ func TestC32(t *testing.T) {
 	r.Set("a_distinct_outcome_patterns", len(patterns))
 
 	partB(r)
+	partC(r)
 }
